@@ -145,6 +145,7 @@ def _run(tape, out, elfi, root):
     saved_held = [None]   # what the pool's pickles say (state at the last save()/close())
     saved_max = [0]
     abandoned = []        # handles of 'processes' that ended without close()
+    forced_ops = []
     reused = False
     nsteps = tape.int('n_steps', 2, 5)
     out.sample = {'spec': sp.describe_spec(spec), 'stores': list(stores),
@@ -178,7 +179,11 @@ def _run(tape, out, elfi, root):
         return wl
 
     last_wl = None
-    for step in range(nsteps):
+    step = -1
+    while step + 1 < nsteps or forced_ops:
+        step += 1
+        if step > 12:
+            break
         cur_spec = specs[version]
         cur_stores = [s for s in pool.stores]
         if step == 0:
@@ -186,7 +191,14 @@ def _run(tape, out, elfi, root):
         else:
             op = tape.choice('op', ['run', 'rerun_same', 'rerun_larger', 'rerun_smaller',
                                     'remove_store', 'replace_node', 'reopen', 'run'] +
-                             (['reopen', 'rerun_larger'] if on_disk else []))
+                             (['reopen', 'rerun_larger', 'abandon_open', 'abandon_open']
+                              if on_disk else []))
+        if forced_ops:
+            # risky order on purpose: save, extend, end the process without close, reopen, extend
+            op = forced_ops.pop(0)
+        force_how = None
+        if op == 'abandon_open':
+            op, force_how = 'reopen', 'abandon_open'
         if op == 'remove_store':
             if len(cur_stores) <= 1:
                 continue
@@ -243,8 +255,8 @@ def _run(tape, out, elfi, root):
                 continue
             before = {s: len(pool.stores[s]) if pool.stores[s] is not None else 0
                       for s in pool.stores}
-            how = tape.choice('reopen_how', ['close_open', 'flush', 'save', 'abandon_open', 'save',
-                                             'abandon_open'])
+            how = force_how or tape.choice('reopen_how', ['close_open', 'flush', 'save',
+                                                          'abandon_open'])
             if how == 'abandon_open' and saved_held[0] is None:
                 how = 'save'
             if how == 'flush':
@@ -263,7 +275,9 @@ def _run(tape, out, elfi, root):
                 held_max = saved_max[0]
                 after = {s_: len(pool.stores[s_]) if pool.stores[s_] is not None else 0
                          for s_ in pool.stores}
-                if after != held:
+                if control:
+                    held = dict(after)     # negative controls are run, never judged
+                elif after != held:
                     out.violate('reopen-equal', 'abandoned', saved=held, after=after)
                     return
                 out.probes['pool_abandon_open'] += 1
@@ -459,9 +473,22 @@ def _run(tape, out, elfi, root):
                         continue
                     if s not in got or not sr.arrays_equal(np.asarray(got[s]),
                                                            np.asarray(ref_batches[bi][s])):
-                        out.violate('pool-content', 'value', store=s, batch_index=bi, step=step)
+                        # F3 can also surface only here: the re-simulated value of a node that
+                        # was missing from a pool-hit batch is stored, but the returned rows
+                        # happen to come from other batches
+                        sig = 'params-stored+stochastic-node-reran' \
+                            if (f3_shape and 'sim' in reran) else 'value'
+                        out.violate('pool-content', sig, store=s, batch_index=bi, step=step,
+                                    stores=stored_now, reran=sorted(reran))
                         return
         run_.drain()
+        if on_disk and pool.has_context and tape.chance('save_after_run', 1, 3):
+            pool.save()
+            saved_held[0] = dict(held)
+            saved_max[0] = held_max
+            out.ev('P save')
+            if family == 'rejection' and tape.chance('stale_pickle_script', 1, 2):
+                forced_ops[:] = ['rerun_larger', 'abandon_open', 'rerun_larger', 'rerun_same']
     out.abstract = tuple(map(tuple, abstract))
     out.nontrivial = reused and out.probes.get('speculative_submit', 0) > 0
     if on_disk:
